@@ -53,6 +53,16 @@ func (m *Mint) checkInvoicePaid(ctx context.Context, quoteId string) {
 	case invoice := <-updateChan:
 		if invoice.Settled {
 			m.logInfof("received update from invoice sub. Invoice for mint quote '%v' is PAID", mintQuote.Id)
+			// the quote may already have been marked as paid (and issued) through a state check.
+			// Only an unpaid quote is moved to PAID, otherwise an issued quote could be issued again.
+			currentQuote, err := m.db.GetMintQuote(mintQuote.Id)
+			if err != nil {
+				m.logErrorf("could not get mint quote '%v' from db: %v", mintQuote.Id, err)
+				return
+			}
+			if currentQuote.State != nut04.Unpaid {
+				return
+			}
 			mintQuote.State = nut04.Paid
 			if err := m.db.UpdateMintQuoteState(mintQuote.Id, mintQuote.State); err != nil {
 				m.logErrorf("could not mark mint quote '%v' as PAID in db: %v", mintQuote.Id, err)
